@@ -480,6 +480,8 @@ func c04Run(t *testing.T, c *choice.Stream, r *Result, opt RunOpt, forced *c04Fo
 			conn.Window = c.Pick("window.insert", 8, 8, 64) // an exception or a cut while a data block is half-way out
 		}
 		conn.CloseErr = c.Bool("close_err", 1, 4) // releasing the connection reports an error
+		ctxDeadline := time.Duration(c.Pick("ctx.deadline.s", 0, 0, 20, 120)) * time.Second
+		probeLate := c.Bool("probe.late", 1, 2)
 		r.Cell = fmt.Sprintf("%s/%s/comp%d", sc.kind, faultName, cf.Comp)
 		r.Sample = map[string]any{"kind": sc.kind, "fault": faultName, "client_rev": cf.ClientRev, "server_rev": cf.ServerRev, "compression": cf.Comp.String(),
 			"cols": colNames(sc.cols), "cut_k": cutK, "write_err_k": werrK, "fail_at": sc.rec.FailAt, "script": scriptLabels(script), "strategy": e.Sim.Strategy, "deliver": e.W.DeliverMode}
@@ -500,6 +502,13 @@ func c04Run(t *testing.T, c *choice.Stream, r *Result, opt RunOpt, forced *c04Fo
 				conn.CutRST = faultName == "cut_rst"
 			case "write_err":
 				conn.WriteErrAfter = conn.OutLen() + werrK
+			}
+			if ctxDeadline > 0 && faultName != "corrupt" {
+				// the caller's context carries a deadline well beyond the exchange: every
+				// flush arms (and must disarm) a write deadline on the connection
+				var cancel context.CancelFunc
+				ctx, cancel = context.WithTimeout(ctx, ctxDeadline)
+				defer cancel()
 			}
 			if faultName == "corrupt" {
 				// An altered byte can hide the end of the response (a code or a length
@@ -543,6 +552,12 @@ func c04Run(t *testing.T, c *choice.Stream, r *Result, opt RunOpt, forced *c04Fo
 			excWhole := true
 			if faultName == "cut_fin" || faultName == "cut_rst" {
 				excWhole = excEnd >= 0 && cutK >= excEnd
+			}
+			if ctxDeadline > 0 && probeLate {
+				// the next request comes when the failed query's deadline is long past
+				time.Sleep(ctxDeadline + time.Second)
+				e.Sim.Yield("user.sleep")
+				r.Fire("probe_after_old_deadline")
 			}
 			checkAfterFailure(e, r, cf, cl, conn, srv, faultName, derr, excWhole)
 		}
